@@ -15,15 +15,15 @@ OSFS (`run_ftp_exact` runs all of it):
   `ftplib` (every command of `FtpServer.Cmd` x paths {"",a,b,a/a,a/b,b/a,a/a/a} x every tree with <= 3 nodes x both
   variants): same reply code, same payload (listings through the library's own parsers on both sides: name, type,
   file size; RETR bytes; FEAT features), same resulting directory on disk.
-* `directed_steps()` — one step per branch the generators reach rarely, and the witnesses of the
-  `…_counterexample` theorems (format limits; the one open finding of this package).
+* `directed_steps()` — one step per branch the generators reach rarely (incl. the witnesses of the regression theorem
+  `ftp_mlst_linebreak_repaired`: names with FF / LS, repaired in /repo 79535c4 — judged like any other step);
+  `limit_steps()` — the witnesses of the `…_counterexample` theorems (protocol and format limits).
 * `replay(rep, case)` — for the replay files written here (`*/ftp-exact/*`, `ftpserver/*`).
 """
 from __future__ import annotations
 
 import ftplib
 import io
-import json
 import os
 import time
 
@@ -36,47 +36,12 @@ VARIANT = {"ftp": "mlsd", "ftp-nomlsd": "list"}
 MODEL_NAME = ("FsModel.Ftp (transcription of fs/ftpfs.py + inherited fs/base.py defaults, as programs over the commands of "
               "FsModel.FtpServer with pyftpdlib's profile)")
 
-# the one open finding of this package (proposal in findings/known_findings_additions.json): FTPFS.getinfo cuts the
-# MLST reply with str.splitlines(), which also breaks at VT FF FS GS RS NEL LS PS
-LINEBREAKS = "\x0b\x0c\x1c\x1d\x1e\x85\u2028\u2029"
-KNOWN_SPLITLINES = "C01/known/ftpfs-mlst-reply-splitlines"
-
-
 def year():
     return time.gmtime().tm_year
 
 
 def model_cmd(kind):
     return "ftp.step %s %d" % (VARIANT[kind], year())
-
-
-# ----------------------------------------------------------------------------- known finding (private loader)
-
-
-def _additions():
-    path = os.path.join(vlib.VERIF, "findings", "known_findings_additions.json")
-    try:
-        return [f for f in json.load(open(path)) if f.get("property") == "C01"]
-    except Exception:
-        return []
-
-
-def known(rep, signature):
-    """an open finding of C01: in known_findings.json (after integration) or proposed by this package"""
-    f = rep.match_known(signature)
-    if f is None:
-        for g in _additions():
-            if g.get("signature") == signature:
-                f = g
-    return f
-
-
-def splitlines_class(s):
-    """the step names (through a path argument) a resource whose name holds a character str.splitlines() breaks at,
-    on the MLSD variant: FTPFS.getinfo misreads the MLST reply"""
-    if s.kind != "ftp":
-        return False
-    return any(isinstance(x, str) and any(c in x for c in LINEBREAKS) for x in s.op[1:])
 
 
 # ----------------------------------------------------------------------------- Ftp.step vs FTPFS
@@ -201,6 +166,12 @@ DIRECTED = [
     ([("F", "x;y", b"1")], ("getinfo", "x;y")),                         # ec30a14
     ([("F", "k=v", b"12")], ("getsize", "k=v")),
     ([("F", "ü", b"12")], ("getinfo", "ü")),
+    # 79535c4 (was the open finding ftpfs-mlst-reply-splitlines): names with characters str.splitlines() breaks at
+    ([("D", "a\x0cb")], ("isdir", "a\x0cb")),
+    ([("D", "a\x0cb")], ("getinfo", "a\x0cb")),
+    ([("F", "a\u2028b", b"123")], ("getsize", "a\u2028b")),
+    ([("D", "a\x85b"), ("F", "a\x85b/c\x1cd", b"1")], ("listdir", "a\x85b")),
+    ([("D", "a\x0bb")], ("makedir", "a\x0bb/c\x1dd", False)),
 ]
 
 # witnesses of the `…_counterexample` theorems of FsProofs/FtpRefines.lean, run on the real code: (kinds, tree, op)
@@ -208,10 +179,6 @@ LIMIT_CASES = [
     # format limit (C20): a LIST line cannot tell a leading blank of a name from the column separator
     (("ftp-nomlsd",), [("F", " f", b"1")], ("exists", " f")),
     (("ftp-nomlsd",), [], ("makedir", " d", False)),
-    # the open finding: the MLST reply is cut with str.splitlines()
-    (("ftp",), [("D", "a\x0cb")], ("isdir", "a\x0cb")),
-    (("ftp",), [("D", "a\x0cb")], ("getinfo", "a\x0cb")),
-    (("ftp",), [("F", "a\u2028b", b"123")], ("getsize", "a\u2028b")),
     # protocol limit: CR / LF cannot travel in a command line; FTPFS declares them invalid (79da638), the reference does not
     (FTP_KINDS, [], ("exists", "a\rb")),
     (FTP_KINDS, [], ("makedir", "a\nb", False)),
@@ -327,7 +294,7 @@ def _real(ftp, cmd, path, rest, data):
             return "211", ("MLST" in f, "MFMT" in f)
         if cmd == "MLST":
             resp = ftp.sendcmd("MLST " + w)
-            return resp[:3], _mlsx_entries(resp.splitlines()[1:-1])
+            return resp[:3], _mlsx_entries(resp.split("\n")[1:-1])
         if cmd in ("MLSD", "LIST"):
             lines = []
             ftp.retrlines(cmd + " " + w, lines.append)
@@ -362,7 +329,7 @@ def _model(line, cmd):
             f = FTPFS._parse_features(text)
             val = ("MLST" in f, "MFMT" in f)
         elif cmd == "MLST":
-            val = _mlsx_entries(text.splitlines()[1:-1])
+            val = _mlsx_entries(text.split("\n")[1:-1])
     elif payload.startswith("L"):
         lines = vlib.unhxlist(payload)
         val = _mlsx_entries(lines) if cmd == "MLSD" else _list_entries(lines)
@@ -473,29 +440,25 @@ def check_server_model(rep, drv, trees=None, kinds=FTP_KINDS, cmds=None, paths=N
 
 
 def check_limit_cases(rep, drv, ref_judge):
-    """the witnesses of the `_counterexample` theorems: the real FTPFS must do what the MODEL says (exact), and where
-    that differs from the reference it is a format limit (counted) or the open finding (KNOWN-FINDING)"""
+    """the witnesses of the `_counterexample` theorems: the real FTPFS must do what the MODEL says (exact); where that
+    differs from the reference it is the stated protocol / format limit (counted), nothing else: a limit case that
+    AGREES with the reference is counted too, any other kind of step goes through the property's own judge"""
     steps = limit_steps()
     judge_ftp_exact(rep, steps, drv)
     for s, m in zip(steps, H.model_replies(drv, steps)):
         (mout, mtree, mclosed, adm, wf) = m
         differs = (s.impl[0], H.canon_val(s.impl[1]) if s.impl[0] == "ok" else None) != (mout[0], mout[1] if mout[0] == "ok" else None) \
             or s.post is None or H.canon_tree(s.post) != H.canon_tree(H.dec_tree(mtree))
-        if splitlines_class(s):
-            if differs:
-                f = known(rep, KNOWN_SPLITLINES)
-                if f is not None:
-                    rep.known(f)
-                    rep.count("ftp-limit/known:mlst-reply-splitlines")
-                else:
-                    ref_judge(rep, s, m)
-            else:
-                rep.count("ftp-limit/mlst-reply-splitlines:agrees-with-reference")
-        elif differs:
-            rep.count("ftp-limit/crlf-in-path" if any(isinstance(x, str) and ("\r" in x or "\n" in x) for x in s.op[1:])
-                      else "ftp-limit/list-leading-blank-ambiguous")
-        else:
+        crlf = any(isinstance(x, str) and ("\r" in x or "\n" in x) for x in s.op[1:])
+        blank = s.kind == "ftp-nomlsd" and any(isinstance(x, str) and any(c != c.lstrip() for c in x.split("/")) for x in s.op[1:])
+        if not differs:
             rep.count("ftp-limit/agrees-with-reference")
+        elif crlf:
+            rep.count("ftp-limit/crlf-in-path")
+        elif blank:
+            rep.count("ftp-limit/list-leading-blank-ambiguous")
+        else:
+            ref_judge(rep, s, m)
     return len(steps)
 
 
